@@ -204,6 +204,7 @@ void CopyOptions(const Workload &from, Workload *to) {
   for (int i = 0; i < 5; ++i) {
     to->qb[i] = from.qb[i];
     to->pred[i] = from.pred[i];
+    to->xq[i] = from.xq[i];
   }
   to->split = from.split;
   to->builtin = from.builtin;
@@ -323,11 +324,11 @@ struct OpResult {
   }
 };
 
-__attribute__((noinline)) void ScribbleStack(uint64_t seed) {
+__attribute__((noinline)) void ScribbleStack(uint64_t seed, bool zero) {
   volatile uint8_t junk[192 * 1024];
   uint64_t s = seed;
   for (size_t i = 0; i < sizeof(junk); i += 8) {
-    uint64_t v = splitmix64(&s);
+    uint64_t v = zero ? 0 : splitmix64(&s);
     for (int k = 0; k < 8; ++k) junk[i + k] = static_cast<uint8_t>(v >> (8 * k));
   }
   asm volatile("" : : "r"(junk) : "memory");
@@ -604,12 +605,19 @@ void ExecOp(const EnvPlan &p, const Materials &m, const Op &op, Objects *o,
 void ExecOpInEnv(const EnvPlan &p, const Materials &m, const Op &op,
                  Objects *o, const Env &env, size_t k, OpResult *r) {
   AllocConfig ac;
+  // Every environment owns the content of fresh memory, the reference one
+  // included (zeros: what a fresh process mostly sees) - otherwise the
+  // reference itself would depend on what malloc happens to recycle.
+  ac.perturb = true;
   if (env.id != 0) {
-    ac.perturb = true;
     ac.fill_mode = env.id == 1 ? 3 : (env.id == 2 ? 2 : 0);
     ac.env_seed = mix64(env.seed, k);
     ac.quarantine = (env.id % 2) == 0;
-    ScribbleStack(mix64(env.seed, 0x57ac0000 + k));
+    ScribbleStack(mix64(env.seed, 0x57ac0000 + k), false);
+  } else {
+    ac.fill_mode = 1;
+    ac.pad = false;
+    ScribbleStack(0, true);
   }
   g_env_seed_state = mix64(env.seed, 0xc10c0000 + k);
   const uint64_t clock_before = g_env_clock_calls;
@@ -715,7 +723,16 @@ uint64_t RunPlan(const EnvPlan &p, const std::string &repo,
   *abandoned = false;
   Materials m;
   Hasher log;
-  if (!Materialise(p, repo, &m)) {
+  // The plan's inputs are produced in the reference environment as well.
+  AllocConfig mc;
+  mc.perturb = true;
+  mc.fill_mode = 1;
+  mc.pad = false;
+  AllocBegin(mc);
+  ScribbleStack(0, true);
+  const bool have_materials = Materialise(p, repo, &m);
+  AllocEnd(false);
+  if (!have_materials) {
     log.U64(0xdead);
     return log.Digest();
   }
